@@ -199,9 +199,10 @@ inductive RdState
     block, `blk` is the back-end the datum deserializer runs on — a *view* of the block's bytes
     (null codec) or the decompressed block —, `after` the source bytes following the block, and
     `blkLimit` what `Take::limit()` would report (declared size minus bytes consumed).
-    Modelling note: on a reader back-end the block boundary is treated as a refill point (the
-    source's buffer is considered empty after a block); results do not depend on refill points
-    (C11), and the container `c11` stream checks that on the real code. -/
+    Modelling note: on a reader back-end with the null codec the source's buffer is tracked
+    exactly across blocks (`srcAfterBlock`); with a compressed codec the end of a block is treated
+    as a refill point of the source (the decoders' own buffering is not modelled); results do not
+    depend on refill points unless the caller lowered the allocation cap (C11). -/
 structure Reader where
   st : RdState := .notInBlock
   pretendEof : Bool := false
@@ -230,6 +231,28 @@ def ofDe : DeErr → RdErr
 def plainReader (plain : Bytes) (chunk : Nat) : RState :=
   { isSlice := false, rest := plain, lastChunk := chunk }
 
+/-- The source's buffer after a block of `rem` more bytes has been read through `io::Take`:
+    `Take::fill_buf` hands out at most `limit` bytes of the source's buffer and does not touch the
+    source once the limit is 0; the source refills (one schedule entry each time) exactly when its
+    buffer is empty and the block is not exhausted. `afterLen` bytes follow the block. Returns the
+    number of bytes still buffered after the block and the remaining schedule. -/
+def srcAfterBlockGo (lastChunk afterLen : Nat) : Nat → Nat → List Nat → Nat × List Nat
+  | 0, _, sched => (0, sched)
+  | fuel + 1, rem, sched =>
+    if rem = 0 then (0, sched) else
+    match sched with
+    | [] =>
+      let a := min (max lastChunk 1) (rem + afterLen)
+      if a ≥ rem then (a - rem, []) else srcAfterBlockGo lastChunk afterLen fuel (rem - a) []
+    | c :: sched' =>
+      let a := min (max c 1) (rem + afterLen)
+      if a ≥ rem then (a - rem, sched') else srcAfterBlockGo lastChunk afterLen fuel (rem - a) sched'
+
+/-- `o`: the source when the block is entered (`o.avail` bytes buffered), `size` the block's. -/
+def srcAfterBlock (o : RState) (size afterLen : Nat) : Nat × List Nat :=
+  if o.avail ≥ size then (min (o.avail - size) afterLen, o.sched)   -- (`avail ≤ rest.length`: the `min` is the identity)
+  else srcAfterBlockGo o.lastChunk afterLen (size - o.avail) (size - o.avail) o.sched
+
 /-- Leave the current block (`into_source_reader_and_config`), check the sync marker. -/
 def leaveBlock (d : Decomp) (r : Reader) : Except RdErr Unit × Reader :=
   let r := { r with st := .broken }
@@ -240,7 +263,12 @@ def leaveBlock (d : Decomp) (r : Reader) : Except RdErr Unit × Reader :=
     else r.blk.rest ≠ []
   if leftover then (.error .custom, r) else
   let outer : RState :=
-    if d.isNull ∧ ¬ r.outer.isSlice then { r.blk with rest := r.after, avail := 0, limit := none }
+    if d.isNull ∧ ¬ r.outer.isSlice then
+      -- `into_left_after_take`: the source comes back with whatever it has buffered beyond the
+      -- block and with the schedule entries the block did not use (`r.outer` is the source as it
+      -- was when the block was entered)
+      let src := srcAfterBlock r.outer (r.outer.rest.length - r.after.length) r.after.length
+      { r.blk with rest := r.after, avail := src.1, sched := src.2, limit := none }
     else { r.outer with rest := r.after, avail := 0 }
   match readExact 16 outer with
   | (.error e, outer') => (.error (ofDe e), { r with outer := outer' })
